@@ -45,10 +45,18 @@ pub enum XOp {
     Card { k: u64, created: i64 },
     /// a put of a short sentence with default options (triplet extraction on: the cards it makes are stamped now())
     Sentence { k: u64, ts: i64 },
+    /// a put of the fixed text of tie group g with no uri: every such frame has the same index text, hence the
+    /// same sketch and the same score for every query (ties for find_sketch_candidates and for the engine)
+    Tied { g: u64, ts: i64 },
 }
 
 fn emb_of(k: u64) -> Vec<f32> { vec![(k % 7) as f32, ((k / 7) % 7) as f32, ((k / 49) % 7) as f32, 1.0 + ((k / 343) % 3) as f32] }
 fn emb_key(e: &[f32]) -> u64 { (e[0] as u64) + 7 * (e[1] as u64) + 49 * (e[2] as u64) + 343 * ((e[3] - 1.0) as u64) }
+
+pub fn tie_text(g: u64) -> String {
+    if g % 2 == 0 { "zulu yankee xray whiskey victor tango sierra romeo quebec zulu yankee xray alpha".to_string() }
+    else { "amber bronze copper denim ebony fuchsia garnet hazel indigo amber bronze bravo".to_string() }
+}
 
 fn sentence(k: u64) -> String {
     let names = ["Alice", "Bob", "Carol", "David"]; let orgs = ["Acme", "Globex", "Initech"]; let cities = ["Paris", "Berlin", "Tokyo"];
@@ -72,6 +80,7 @@ pub fn ser(ops: &[XOp]) -> String {
             XOp::S(Op::Doctor(b)) => format!("O {}", b),
             XOp::Card { k, created } => format!("K {} {}", k, created),
             XOp::Sentence { k, ts } => format!("N {} {}", k, ts),
+            XOp::Tied { g, ts } => format!("Y {} {}", g, ts),
         };
         s.push_str(&l); s.push('\n');
     }
@@ -89,6 +98,7 @@ pub fn de(s: &str) -> Vec<XOp> {
             "O" => XOp::S(Op::Doctor(f[1].parse().unwrap())),
             "K" => XOp::Card { k: f[1].parse().unwrap(), created: f[2].parse().unwrap() },
             "N" => XOp::Sentence { k: f[1].parse().unwrap(), ts: f[2].parse().unwrap() },
+            "Y" => XOp::Tied { g: f[1].parse().unwrap(), ts: f[2].parse().unwrap() },
             other => panic!("bad op line {}", other),
         }
     }).collect()
@@ -153,6 +163,45 @@ pub struct RunOut {
 fn sreq(q: &str, top_k: usize) -> SearchRequest {
     SearchRequest { query: q.to_string(), top_k, snippet_chars: 80, uri: None, scope: None, cursor: None, as_of_frame: None, as_of_ts: None, no_sketch: true, acl_context: None, acl_enforcement_mode: Default::default() }
 }
+fn sreq_sketch(q: &str, top_k: usize) -> SearchRequest { let mut r = sreq(q, top_k); r.no_sketch = false; r }
+
+/// Memvid::find_sketch_candidates as ORDERED lists: several queries, Hamming thresholds that admit few / many /
+/// all entries passing the term filter, max_candidates 1, 2, 3, half of and all of the entries and the default
+fn sketch_digest(m: &Memvid) -> String {
+    let n = m.sketch_stats().entry_count as usize;
+    let mut s = format!("entries {}\n", n);
+    let queries = [tie_text(0), tie_text(1), "zulu yankee".to_string(), "amber".to_string(), "alpha".to_string(), "alpha bravo charlie".to_string(), "works paris".to_string(), "nosuchword".to_string()];
+    for q in queries.iter() {
+        for thr in [10u32, 32, 64] {
+            for max in [1usize, 2, 3, n / 2, n, 2000] {
+                let c = m.find_sketch_candidates(q, Some(memvid_core::SketchSearchOptions { hamming_threshold: thr, max_candidates: max, min_score: 0.0 }));
+                s.push_str(&format!("{:?} thr{} max{}:", &q[..q.len().min(12)], thr, max));
+                for x in &c { s.push_str(&format!(" ({} {:08x} {} {})", x.frame_id, x.score.to_bits(), x.hamming_distance, x.matching_top_terms)); }
+                s.push('\n');
+            }
+        }
+    }
+    s
+}
+
+/// the searches of the digest with the sketch pre-filter ON
+fn prefilter_search_digest(m: &mut Memvid) -> String {
+    let mut queries: Vec<String> = WORDS.iter().take(6).map(|w| w.to_string()).collect();
+    queries.push("zulu".into()); queries.push("zulu yankee xray".into()); queries.push("amber bronze".into()); queries.push("alpha bravo".into()); queries.push("charlie OR delta".into()); queries.push("works".into()); queries.push(tie_text(0));
+    let mut s = String::new();
+    for (qi, q) in queries.iter().enumerate() {
+        let top_k = if qi % 3 == 0 { 3 } else if qi % 3 == 1 { 10 } else { 200 };
+        match m.search(sreq_sketch(q, top_k)) {
+            Ok(resp) => {
+                s.push_str(&format!("Q {:?} k{} total {} next {:?} engine {:?}\n", &q[..q.len().min(20)], top_k, resp.total_hits, resp.next_cursor, resp.engine));
+                for h in &resp.hits { s.push_str(&format!("  {} {} {:?} {:?} {}\n", h.rank, h.frame_id, h.range, h.chunk_range, h.matches)); }
+            }
+            Err(e) => s.push_str(&format!("Q {:?} error {}\n", q, e)),
+        }
+    }
+    s
+}
+
 fn opt_n(v: Option<u64>) -> T { match v { Some(x) => T::some(T::N(x as u128)), None => T::none() } }
 
 fn card(k: u64, created: i64) -> MemoryCard {
@@ -181,9 +230,11 @@ pub fn execute(ops_in: Option<&[XOp]>, mut gen: Option<(&mut Rng, usize, u64)>) 
             let c = r.below(100);
             let ts = 1_700_000_000i64 + if r.chance(1, 4) { (r.below(3) * 50) as i64 } else { (i as i64) * 100 - (r.below(5) as i64) * 170 };
             if i + 1 == n { XOp::S(Op::Commit) }
+            else if profile == 4 && (i < 6 || c < 45) { XOp::Tied { g: if i < 6 || r.chance(3, 4) { 0 } else { 1 }, ts } }
+            else if profile >= 2 && profile <= 3 && c < 8 { XOp::Tied { g: r.below(2), ts } }
             else if c < 50 || n_committed == 0 && c < 75 {
                 kctr += 1;
-                let kind = match profile { 0 | 1 => PayloadKind::Bin, _ => match r.below(10) { 0..=4 => PayloadKind::Text, 5..=6 => PayloadKind::Chunked, _ => PayloadKind::Bin } };
+                let kind = match profile { 0 | 1 => PayloadKind::Bin, 4 => PayloadKind::Text, _ => match r.below(10) { 0..=4 => PayloadKind::Text, 5..=6 => PayloadKind::Chunked, _ => PayloadKind::Bin } };
                 let size = match kind { PayloadKind::Bin => match r.below(8) { 0 => r.range(1, 8), 1 => r.range(20000, 52000), _ => r.range(10, 3000) }, PayloadKind::Text => r.range(30, 1500), PayloadKind::Chunked => r.range(2500, 6000) } as usize;
                 let uri = if r.chance(1, 2) { uri_counter += 1; Some(if r.chance(1, 5) && uri_counter > 1 { r.range(1, uri_counter as u64 - 1) as u32 } else { uri_counter }) } else { None };
                 let embed = if r.chance(2, 5) { Some(emb_of(r.below(1029))) } else { None };
@@ -227,24 +278,25 @@ pub fn execute(ops_in: Option<&[XOp]>, mut gen: Option<(&mut Rng, usize, u64)>) 
                 dops.push(T::C("DCard", vec![T::N(*k as u128), T::some(T::N(*created as u128))]));
                 outs.push(T::Tup(vec![res, T::N(fc as u128), T::N(nx as u128)]));
             }
-            XOp::Sentence { k, ts } => {
-                let text = sentence(*k);
-                let tag = 500_000 + *k;
-                d.tags.entry(*blake3::hash(text.as_bytes()).as_bytes()).or_insert(tag);
+            XOp::Sentence { .. } | XOp::Tied { .. } => {
+                let (text, tag, ts, dflt) = match &op { XOp::Sentence { k, ts } => (sentence(*k), 500_000 + *k, *ts, true), XOp::Tied { g, ts } => (tie_text(*g), 600_000 + (*g % 2), *ts, false), _ => unreachable!() };
+                let tag = *d.tags.entry(*blake3::hash(text.as_bytes()).as_bytes()).or_insert(tag);
                 let wal_seq_before = memvid_core::verif_hooks::wal_stats(d.mem()).3;
                 let cards_before = d.mem().memories().card_count() as u64;
-                let opts = Driver::options(None, *ts, true);
+                let opts = Driver::options(None, ts, dflt);
                 let r = d.mem().put_bytes_with_options(text.as_bytes(), opts);
                 let (_, pending, _, seq_now) = memvid_core::verif_hooks::wal_stats(d.mem());
                 let grew = seq_now - wal_seq_before;
                 let auto = if grew > 0 && pending == 0 { T::some(T::N((grew - 1) as u128)) } else if grew > 1 { T::some(T::N((grew - 1) as u128)) } else { T::none() };
                 let ncards = d.mem().memories().card_count() as u64 - cards_before;
-                if r.is_ok() { put_ts.insert(tag, *ts); }
+                // tied frames share one content tag: the timestamp check below is per tag, leave them out
+                if r.is_ok() && dflt { put_ts.insert(tag, ts); }
                 let fc = d.mem().frame_count() as u64; let nx = d.mem().next_frame_id();
                 let res = match &r { Ok(s) => T::C("Ok", vec![T::N(*s as u128)]), Err(e) => { symptoms.push(format!("op {}: put failed: {}", i, e)); T::C("Err", vec![T::N(9)]) } };
                 let sop_t = T::C("OPut", vec![T::none(), T::N(tag as u128), T::N(0), T::N(0), auto]);
-                trace.push_str(&format!("sentence {} => {} cards {}\n", k, res.coq(), ncards));
-                dops.push(T::C("DSentence", vec![sop_t, T::some(T::N(*ts as u128)), T::N(ncards as u128)]));
+                trace.push_str(&format!("{} => {} cards {}\n", if dflt { "sentence" } else { "tied" }, res.coq(), ncards));
+                if dflt { dops.push(T::C("DSentence", vec![sop_t, T::some(T::N(ts as u128)), T::N(ncards as u128)])); }
+                else { dops.push(T::C("DStore", vec![sop_t, T::some(T::N(ts as u128)), T::B(true), T::none(), T::B(false)])); }
                 outs.push(T::Tup(vec![res, T::N(fc as u128), T::N(nx as u128)]));
             }
         }
@@ -293,7 +345,7 @@ pub fn execute(ops_in: Option<&[XOp]>, mut gen: Option<(&mut Rng, usize, u64)>) 
         // ---- searches (sketch pre-filter off)
         let mut queries: Vec<String> = WORDS.iter().map(|w| w.to_string()).collect();
         queries.push("alpha bravo".into()); queries.push("charlie OR delta".into()); queries.push("echo AND foxtrot".into()); queries.push("golf -hotel".into());
-        queries.push("uri:mv2://u/1".into()); queries.push("works".into()); queries.push("lives paris".into()); queries.push("nosuchword".into());
+        queries.push("uri:mv2://u/1".into()); queries.push("works".into()); queries.push("lives paris".into()); queries.push("nosuchword".into()); queries.push("zulu".into()); queries.push("zulu yankee xray".into()); queries.push("amber bronze".into());
         let mut tagged = 0;
         for f in &frames { if tagged < 6 && f.role == FrameRole::Document { if let Some(t) = f.search_text.as_ref().and_then(|t| t.split_whitespace().next().map(|w| w.to_string())) { if t.starts_with("doc") { queries.push(t); tagged += 1; } } } }
         let mut s = String::new(); let mut sc = String::new();
@@ -323,12 +375,33 @@ pub fn execute(ops_in: Option<&[XOp]>, mut gen: Option<(&mut Rng, usize, u64)>) 
         for c in d.mem().memories().cards() { let mut g = c.clone(); sn.push_str(&format!("{} {}\n", g.id, g.created_at)); g.created_at = 0; s.push_str(&serde_json::to_string(&g).unwrap_or_default()); s.push('\n'); }
         ncards = d.mem().memories().card_count() as u64;
         logical.insert("memory cards".into(), s); logical.insert("memory card created_at".into(), sn);
+        logical.insert("sketch candidates (live handle)".into(), sketch_digest(d.mem()));
+        if std::env::var("C23_DUMP").is_ok() { eprintln!("{}", logical["sketch candidates (live handle)"]); }
+        logical.insert("search results (sketch pre-filter, live handle)".into(), prefilter_search_digest(d.mem()));
         let st = d.mem().stats();
         if let Ok(st) = st { logical.insert("stats".into(), format!("frames {} active {} lex {} vec {} time {} vectors {} payload {} logical {}", st.frame_count, st.active_frame_count, st.has_lex_index, st.has_vec_index, st.has_time_index, st.vector_count, st.payload_bytes, st.logical_bytes)); }
     }
     let path = d.path.clone();
     let m = d.mem.take(); drop(m);
     let file = std::fs::read(&path).unwrap_or_default();
+    // two further opens of the file as it is (nothing is written): the sketch track is rebuilt from the file each time
+    let mut reopen_differs: Option<String> = None;
+    if failed.is_none() {
+        let mut seen: Vec<(String, String)> = vec![];
+        for _ in 0..2 {
+            match Memvid::open(&path) {
+                Ok(mut m) => { let a = sketch_digest(&m); let b = prefilter_search_digest(&mut m); seen.push((a, b)); }
+                Err(e) => { seen.push((format!("open failed: {}", e), String::new())); }
+            }
+        }
+        if seen[0] != seen[1] {
+            let what = if seen[0].0 != seen[1].0 { first_diff(&seen[0].0, &seen[1].0) } else { first_diff(&seen[0].1, &seen[1].1) };
+            reopen_differs = Some(format!("logical-differs: two opens of the same file give different sketch candidates / pre-filtered search results: {}", what));
+        }
+        logical.insert("sketch candidates (reopened handle)".into(), seen[0].0.clone());
+        logical.insert("search results (sketch pre-filter, reopened handle)".into(), seen[0].1.clone());
+    }
+    let failed_input = failed_input.or(reopen_differs);
     (ops, RunOut { logical, file, dops, outs, table, tix, vec_ids, ncards, failed, input_ignored: failed_input, delete_seqs, symptoms })
 }
 
@@ -491,7 +564,8 @@ fn finish_child(mut c: ChildRun, idx: usize) -> Result<(BTreeMap<String, String>
 /// region classes the model tags with no oracle source (coq/Model/Determinism.v `deps c = []`)
 const DETERMINISTIC: [usize; 10] = [0, 4, 6, 7, 9, 11, 12, 16, 17, 18];
 /// logical sections that are part of the property; "search scores" and "memory card created_at" are reported separately
-const LOGICAL: [&str; 8] = ["per-op results", "frame table", "frame contents", "timeline", "search results", "vector searches", "memory cards", "stats"];
+const LOGICAL: [&str; 12] = ["per-op results", "frame table", "frame contents", "timeline", "search results", "vector searches", "memory cards", "stats",
+    "sketch candidates (live handle)", "sketch candidates (reopened handle)", "search results (sketch pre-filter, live handle)", "search results (sketch pre-filter, reopened handle)"];
 
 fn first_diff(a: &str, b: &str) -> String {
     for (x, y) in a.lines().zip(b.lines()) { if x != y { return format!("{:?} vs {:?}", &x[..x.len().min(160)], &y[..y.len().min(160)]); } }
@@ -502,8 +576,8 @@ fn first_diff(a: &str, b: &str) -> String {
 fn attempt(seed: u64, i: usize) -> Result<Case, (Vec<String>, bool)> {
     let mut r = Rng::new(seed ^ 0xC23 ^ ((i as u64 + 1).wrapping_mul(0x9E37_79B9_7F4A_7C15)));
     let dbg = std::env::var("MV_DEBUG").is_ok();
-    let profile = (i % 4) as u64;
-    let nops = r.range(6, 20) as usize;
+    let profile = (i % 5) as u64;
+    let nops = if profile == 4 { r.range(12, 20) } else { r.range(6, 20) } as usize;
     let (ops, a) = execute(None, Some((&mut r, nops, profile)));
     let mut viol: Option<String> = None;
     let mut tags = vec![format!("profile{}", profile)];
@@ -576,7 +650,7 @@ fn attempt(seed: u64, i: usize) -> Result<Case, (Vec<String>, bool)> {
     }
     if dbg { eprintln!("case {} profile {} ops {} differ {:?} viol {:?}", i, profile, ops.len(), differ, viol); }
     for op in &ops { match op { XOp::S(Op::Delete { .. }) => tags.push("delete".into()), XOp::S(Op::Update { .. }) => tags.push("update".into()), XOp::S(Op::Reopen) => tags.push("reopen".into()), XOp::S(Op::Crash) => tags.push("crash".into()),
-        XOp::S(Op::Vacuum) => tags.push("vacuum".into()), XOp::Card { .. } => tags.push("card".into()), XOp::Sentence { .. } => tags.push("sentence".into()),
+        XOp::S(Op::Vacuum) => tags.push("vacuum".into()), XOp::Card { .. } => tags.push("card".into()), XOp::Sentence { .. } => tags.push("sentence".into()), XOp::Tied { .. } => tags.push("tied".into()),
         XOp::S(Op::Put { kind, embed, .. }) => { tags.push(format!("put{}", kind_c(kind))); if embed.is_some() { tags.push("embedding".into()); } } _ => {} } }
     tags.sort(); tags.dedup();
     let obs_bits = T::L((0..CLASSES.len()).map(|c| T::B(differ.contains(&c))).collect());
